@@ -463,6 +463,14 @@ Section WithHash.
   Definition resend_route (installed_on calling : nat) : nat := calling.
   Definition resend_route_bound (installed_on calling : nat) : nat := installed_on.   (* a seeded change *)
 
+  (* Per-host connection accounting around the re-send (Transport.MaxConnsPerHost = [limit] > 0).
+     [others]: connections of this host busy with other calls; [unread_401]: the challenge
+     response's body was not read to its end (auto-read off, download), so it still occupies its
+     connection.  The middleware closes that body BEFORE the re-send ([release_first]); a read
+     or closed body leaves a free slot (an idle connection or room to dial). *)
+  Definition resend_gets_connection (limit others : nat) (unread_401 release_first : bool) : bool :=
+    Nat.ltb (others + (if unread_401 && negb release_first then 1 else 0)) limit.
+
   (* ---------- RFC 7616, transcribed independently of the code above ---------- *)
 
   (* section 6.1 registry + section 3.3: name -> (hash function, session variant);
